@@ -11,6 +11,8 @@ CONSTANTS
   DirectCalls = FALSE
   MaxMsgLen = 3
   AsyncApply = TRUE
+  MaxPerRequest = 99
+  RecursiveRLock = FALSE
 INVARIANTS TypeOK
 PROPERTIES Converges
 CHECK_DEADLOCK FALSE
